@@ -57,6 +57,7 @@ Active(v, e) == vals[v].act <= e /\ e < vals[v].exit
 CanExit(e) == {v \in Idx : Active(v, e) /\ vals[v].exit = FAR /\ ~vals[v].slashed /\ e >= vals[v].act + SHARD}
 Slashable(e) == {v \in Idx : ~vals[v].slashed /\ vals[v].act <= e /\ e < vals[v].wd}
 Exiting(e) == {v \in Slashable(e) : vals[v].exit # FAR}
+SlashedLocked(e) == {v \in Idx : vals[v].slashed /\ e < vals[v].wd}     \* already slashed, still in the registry's slashing window
 Healthy(e) == {v \in Idx : Active(v, e) /\ vals[v].exit = FAR /\ ~vals[v].slashed}
 HasBLS == {v \in Idx : vals[v].cred = "bls"}
 Exited(e) == {v \in Idx : vals[v].exit <= e}
@@ -94,6 +95,9 @@ EnabledKinds(e) ==
     \cup (IF Cardinality(Healthy(e)) > 8 /\ Slashable(e) # {} THEN {"pslash"} ELSE {})
     \cup (IF Cardinality(Healthy(e)) > 9 /\ Cardinality(Slashable(e)) >= 2 THEN {"aslash"} ELSE {})
     \cup (IF Exiting(e) # {} THEN {"slash_exiting"} ELSE {})
+    \* attester slashing over a set that mixes an ALREADY SLASHED validator with a slashable one (valid: the
+    \* non-slashable member is skipped)
+    \cup (IF SlashedLocked(e) # {} /\ Cardinality(Healthy(e)) > 8 THEN {"aslash_mixed"} ELSE {})
     \cup (IF slot % VP <= 1 /\ pend = 0 /\ due = 0
             THEN {"deposit_new", "deposit_bad_pop", "topup", "deposit_partial"}
                  \cup (IF Exited(e) # {} THEN {"topup_exited"} ELSE {})
@@ -104,8 +108,8 @@ EnabledKinds(e) ==
 \* the goal's favourite kinds (taken with probability 3/4 when enabled)
 Favourite(e) ==
     CASE goal = "exit_queue" -> {"exit2", "exit"}
-      [] goal = "slash_exiting" -> IF Exiting(e) # {} THEN {"slash_exiting"} ELSE {"exit"}
-      [] goal = "mass_slash" -> {"aslash", "pslash"}
+      [] goal = "slash_exiting" -> IF Exiting(e) # {} THEN {"slash_exiting", "aslash_mixed"} ELSE {"exit"}
+      [] goal = "mass_slash" -> {"aslash", "pslash", "aslash_mixed"}
       [] goal = "topup" -> {"topup_partial", "topup", "topup_exited", "deposit_partial"}
       [] goal = "bls_withdraw" -> {"bls_change", "exit"}
       [] goal = "eth1_edge" -> {"deposit_new", "deposit_bad_pop"}
@@ -149,6 +153,7 @@ Step ==
           \E sync \in {IF ForkAt(e) = "phase0" THEN "full" ELSE Pick({"full", "full", "partial", "partial", "none"})} :
           \E vExit \in {IF CanExit(e) # {} THEN Pick(CanExit(e)) ELSE 0} :
           \E vSlash \in {IF kind = "slash_exiting" THEN Pick(Exiting(e))
+                          ELSE IF kind = "aslash_mixed" THEN Pick(SlashedLocked(e))
                           ELSE IF Slashable(e) # {} THEN Pick(Slashable(e)) ELSE 0} :
           \E vSlash2 \in {IF Cardinality(Slashable(e)) >= 2 THEN Pick(Slashable(e) \ {vSlash}) ELSE vSlash} :
           \E vExit2 \in {IF Cardinality(CanExit(e)) >= 2 THEN Pick(CanExit(e) \ {vExit}) ELSE vExit} :
@@ -187,6 +192,7 @@ Step ==
                                             ![vExit2].exit = q1.end + 1, ![vExit2].wd = q1.end + 1 + WD_DELAY]
                         ELSE IF kind \in {"pslash", "slash_exiting"} THEN slashed(vals, vSlash)
                         ELSE IF kind = "aslash" THEN slashed(slashed(vals, vSlash), vSlash2)
+                        ELSE IF kind = "aslash_mixed" THEN slashed(vals, vSlash2)
                         ELSE IF kind = "bls_change" THEN [vals EXCEPT ![vBls].cred = "eth1"]
                         ELSE IF kind = "topup_partial" THEN [vals EXCEPT ![vTop].bal = "max", ![vTop].act = e + 4]
                         ELSE vals
@@ -196,10 +202,10 @@ Step ==
                      part |-> part1, flavour |-> flavour, hold |-> holdNow, newest_first |-> nf,
                      offline |-> offline, sync |-> sync, vote_new |-> wantVote, kind |-> kind,
                      v |-> (CASE kind \in {"exit", "exit2"} -> vExit
-                              [] kind \in {"pslash", "slash_exiting", "aslash"} -> vSlash
+                              [] kind \in {"pslash", "slash_exiting", "aslash", "aslash_mixed"} -> vSlash
                               [] kind \in {"topup", "topup_exited", "topup_partial"} -> vTop
                               [] kind = "bls_change" -> vBls [] OTHER -> 0),
-                     v2 |-> (IF kind = "aslash" THEN vSlash2 ELSE IF kind = "exit2" THEN vExit2 ELSE 0),
+                     v2 |-> (IF kind \in {"aslash", "aslash_mixed"} THEN vSlash2 ELSE IF kind = "exit2" THEN vExit2 ELSE 0),
                      fork |-> ForkAt(e), lag |-> lag1, behind |-> (kind \in {"exit", "exit2"} /\ q1.behind)])
 
 \* a complete behaviour is printed once by a final step, after which nothing is enabled
